@@ -830,7 +830,7 @@ func sleepContext(ctx context.Context, d time.Duration) bool {
 	defer t.Stop()
 	select {
 	case <-t.C:
-		return true
+		return ctx.Err() == nil // both may be ready: a context that has ended wins over the elapsed interval
 	case <-ctx.Done():
 		return false
 	}
